@@ -1338,9 +1338,13 @@ asn1constraint_compute_constraint_range(
 	/*
 	 * A range whose lower endpoint is greater than its upper endpoint
 	 * contains no values. The range arithmetic below relies on
-	 * left <= right, so diagnose it here.
+	 * left <= right, so diagnose it here. (MIN and MAX take the bounds
+	 * of the parent type and may legitimately cross the other endpoint:
+	 * that is an empty intersection, handled below.)
 	 */
 	if(!range->el_count
+	&& vmin->type != ATV_MIN && vmin->type != ATV_MAX
+	&& vmax->type != ATV_MIN && vmax->type != ATV_MAX
 	&& _edge_compare(&range->left, &range->right) > 0) {
 		FATAL("Empty range %s in %s constraint at line %d: "
 			"lower bound is greater than the upper bound",
